@@ -431,3 +431,33 @@ def valid_lattice_rx(rng):
             setattr(m, f, v)
             out.append(m)
     return out
+
+
+# ---- the TRXD octet layout, literally from the protocol description (C04 oracle) --------------------
+def be32(n):
+    return bytes([(n >> 24) & 0xff, (n >> 16) & 0xff, (n >> 8) & 0xff, n & 0xff])
+
+
+def s16be(x):
+    u = x % 65536
+    return bytes([u >> 8, u & 0xff])
+
+
+def layout_tx(m, legacy):
+    """octets the layout prescribes for a valid Tx record"""
+    return bytes([16 * m.ver + m.tn]) + be32(m.fn) + bytes([m.pwr]) + bytes(m.burst) + \
+        (b"\x00\x00" if (legacy and m.ver == 0) else b"")
+
+
+def layout_rx(m, legacy):
+    """octets the layout prescribes for a valid Rx record (burst = octets of the signed soft bits)"""
+    out = bytes([16 * m.ver + m.tn]) + be32(m.fn) + bytes([-m.rssi]) + s16be(m.toa)
+    if m.ver == 1:
+        if m.nope:
+            out += bytes([0x80])
+        else:
+            out += bytes([8 * (MODS[m.mod][0] + m.tset) + m.tsc])
+        out += s16be(m.ci)
+    if m.burst is not None:
+        out += bytes((127 - (b - 256 if b >= 128 else b)) & 0xff for b in m.burst)
+    return out + (b"\x00\x00" if (legacy and m.ver == 0) else b"")
